@@ -101,5 +101,10 @@ RealGoalGraph ==
       branch == {x \in GoalIds : (CHOOSE y \in ToSet(cur.goals) : y[1] = x)[2] = "b"}
   IN [roots |-> {key[x] : x \in GoalRootsR \cap branch},
       edges |-> {<<key[e[1]], key[e[2]]>> : e \in GoalEdgesR}]
+\* the structural dependencies (derived by TLC from the registered CDGs) are honoured by the real
+\* graph: structural roots are roots, structural edges are edges
+StructureHonoured == (IsGoals /\ cur.built /\ ~cur.toobig) =>
+  /\ ModelGoalGraph.roots \subseteq RealGoalGraph.roots
+  /\ ModelGoalGraph.edges \subseteq RealGoalGraph.edges
 GoalGraphAsModel == (IsGoals /\ cur.built /\ ~cur.toobig) => RealGoalGraph = ModelGoalGraph
 =============================================================================
